@@ -316,6 +316,9 @@ def ref_loaded(spec, skip_brute=False, skip_case=False, folder='Grammar'):
             types['C%s' % length] = group_rows(rows)
     types['X1'] = group_rows(spec.get('X', []))
     types['Y1'] = group_rows(spec.get('Y', []))
+    for key in 'EW':          # e-mail providers / website hosts: plain replacement lists without a length (PRINCE structures, hand-written grammars)
+        if spec.get(key):
+            types[key] = group_rows(spec[key])
     om = spec.get('omen', DEFAULT_OMEN)
     op = om.get('omen_prob')
     if op is None:
